@@ -566,6 +566,12 @@ def check_torsion(ctx, case, obs, d, P, base):
     if pl:
         if circ(got, spec) > tol and circ(got, -spec) > tol:
             ctx.fail('C15|torsion|value|planar', f'Atoms.torsion_angle gives {got} for a planar arrangement with torsion {spec}', pay)
+        # nearly planar is not planar: a triple product of 1e-8 A^3 is six orders above the rounding noise of the
+        # coordinates, there the sense of rotation (and so the sign of the result) is decided
+        tp = dot(sub(P[1], P[0]), cross(sub(P[2], P[1]), sub(P[3], P[2])))
+        if abs(tp) > 1e-8 and abs(got) not in (0.0, 180.0) and (got > 0) != (tp > 0):
+            ctx.fail('C15|torsion|sign|near-planar', f'Atoms.torsion_angle gives {got} for four atoms 1e-5 degrees off a planar arrangement '
+                     f'whose triple product b1.(b2xb3) is {tp} (torsion angle {spec})', pay)
     else:
         if core.close(got, spec, tol, 0):
             residual(ctx, 'max_residual_torsion_deg', got, spec)
@@ -839,6 +845,8 @@ def eval_grow(ctx, cases):
     from shelxfile import Shelxfile
     for s in ('angle', 'torsion'):
         ctx.stream(s)
+    quads = (('C3', 'C2', 'C1', "C1'"), ('C2', 'C1', "C1'", "C3'"), ("C3'", "C2'", "C1'", 'C1'))
+    grown, reqs = [], []
     for case in cases:
         m = ortho(case['cell'])
         placed = [place(m, p) for p in case['pts']]
@@ -858,16 +866,18 @@ def eval_grow(ctx, cases):
         if sorted(orig) != ['C1', 'C2', 'C3'] or sorted(img) != ['C1', 'C2', 'C3'] or len(g) != 6:
             ctx.count(['grow', case['cell'], case['pts']], nontrivial=False, tags=['kind=grow', 'grow: image not generated (C14)'])
             continue
-        quads = (('C3', 'C2', 'C1', "C1'"), ('C2', 'C1', "C1'", "C3'"), ("C3'", "C2'", "C1'", 'C1'))
-        pick = lambda n: img[n[:2]] if n.endswith("'") else orig[n]
-        reqs = []
-        for q in quads:
-            four = [pick(n) for n in q]
-            reqs.append(dict(p='C15', op='geomfrac', cell=case['cell'], fracs=[list(map(float, a.frac_coords)) for a in four],
-                             added=[bool(a.symmgen) for a in four]))
-        ans = ctx.driver.batch(reqs)
-        for q, rq, d in zip(quads, reqs, ans):
-            four = [pick(n) for n in q]
+        pick = lambda n, img=img, orig=orig: img[n[:2]] if n.endswith("'") else orig[n]
+        fours = [[pick(n) for n in q] for q in quads]
+        mine = [dict(p='C15', op='geomfrac', cell=case['cell'], fracs=[list(map(float, a.frac_coords)) for a in four],
+                     added=[bool(a.symmgen) for a in four]) for four in fours]
+        grown.append((case, m, base, shx, fours, mine))
+        reqs.extend(mine)
+    ans = ctx.driver.batch(reqs)      # one call for the whole chunk: every call starts the driver anew
+    k = 0
+    for case, m, base, shx, fours, mine in grown:
+        for q, four, rq in zip(quads, fours, mine):
+            d = ans[k]
+            k += 1
             carts = [matvec(m, f) for f in rq['fracs']]
             if not general(carts):
                 continue
@@ -898,6 +908,12 @@ def evaluate(ctx, cases, stream=None):
         eval_grow(ctx, grw)
 
 
+def budget(ctx, quick, edited, thorough):
+    if ctx.tier == 'thorough':
+        return thorough
+    return edited if ctx.escalated else quick
+
+
 def run(ctx):
     ctx.rule = ('geom: four points, either uniform in a 40 A box (bond > 0.5 A, sin(bond angle) > 0.05, |sin(torsion)| > 0.02) or '
                 'built from internal coordinates with a prescribed clockwise twist and moved rigidly, in cubic / orthorhombic / '
@@ -909,16 +925,24 @@ def run(ctx):
     ctx.assumptions = ['exact arithmetic: the theorems hold over the reals; acos/sqrt/atan2 enter as parameters with their defining relations',
                        'float residual: implementation compared with the atan2 reference at 1e-6 degrees (1e-4 at planar arrangements)',
                        'cell angles with sin(gamma) != 0 and positive volume']
-    n = ctx.budget(3000, 60000)
-    m = ctx.budget(1200, 15000)
+    # (quick, quick tier on edited code, thorough).  harness/main.py raises the budget to the thorough one when a mirrored
+    # file (atoms/atoms.py, misc/dsrmath.py: any edit anywhere in them) differs from the digest the model was written
+    # against.  For C15 the arithmetic of the edited code is tied to the model for ALL inputs on every run by the `src_…`
+    # theorems over the traced source (ShelxProps/C15.lean, extract/trace_c15.py), so the extra sampling is there for what
+    # tracing does not see (object plumbing, histories, the filter of find_atoms_around, rounding at planar arrangements):
+    # four times the quick budget (eight times for the cheap grow() stream) instead of the 16–20 times of the thorough tier.
+    # (The 6–7 minutes such a run used to take were mostly the grow stream starting the driver once per case; eval_grow
+    # now sends one batch per chunk.)
+    n = budget(ctx, 3000, 12000, 60000)
+    m = budget(ctx, 1200, 5000, 15000)
     cases = [WITNESS, CLOCKWISE, TYPO]
     for _ in range(n):
         cases.append(make_geom(ctx.rng))
     for _ in range(m):
         cases.append(make_around(ctx.rng))
-    for _ in range(ctx.budget(1200, 20000)):
+    for _ in range(budget(ctx, 1200, 5000, 20000)):
         cases.append(make_route(ctx.rng))
-    for _ in range(ctx.budget(250, 4000)):
+    for _ in range(budget(ctx, 250, 2000, 4000)):
         cases.append(make_grow(ctx.rng))
     for i in range(0, len(cases), 1000):
         evaluate(ctx, cases[i:i + 1000])
